@@ -39,15 +39,18 @@ func ruleIDX1(p *Prog) *RuleResult {
 					if g == nil || len(call.Call.Args) < 2 || !e.lv.isTableRef(call.Call.Args[0].Type()) {
 						continue
 					}
-					pos := 1
+					pos, tabArg := 1, 0
 					switch {
 					case strings.Contains(g.Name(), "AtIndex"), g.Name() == "needsCopyOnWrite":
 					case g.Name() == "advanceUntil" && len(call.Call.Args) >= 3:
 						pos = 2 // advanceUntil(key, pos): the search starts behind position pos of that table
+					case (strings.HasPrefix(g.Name(), "appendCopy") || strings.HasPrefix(g.Name(), "appendWithoutCopy")) && len(call.Call.Args) >= 3:
+						// dst.appendCopy(src, idx) / dst.appendCopyMany(src, begin, end): the positions index the SOURCE table
+						pos, tabArg = 2, 1
 					default:
 						continue
 					}
-					root := t.root(call.Call.Args[0])
+					root := t.root(call.Call.Args[tabArg])
 					idx := call.Call.Args[pos]
 					// the cursor variable: strip +k
 					for {
